@@ -191,6 +191,13 @@ pub struct Model {
     /// per key: greatest timestamp accepted or recovered for it since the store was opened
     pub floor: BTreeMap<Vec<u8>, u64>,
     pub auto_checked: u64,
+    /// greatest timestamp of any accepted or recovered generation (any key)
+    pub max_accepted: u64,
+    /// explicit timestamps ahead of the clock carried by calls that failed
+    pub rejected_future: Vec<u64>,
+    /// greatest wall-clock value any call has seen so far (the clock may jump backwards;
+    /// the version clock legitimately remembers the greatest value it was given)
+    pub now_hint: u64,
 }
 
 #[derive(Clone, Debug)]
@@ -218,6 +225,9 @@ impl Model {
             map: BTreeMap::new(),
             floor: BTreeMap::new(),
             auto_checked: 0,
+            max_accepted: 0,
+            rejected_future: Vec::new(),
+            now_hint: 0,
         }
     }
 
@@ -292,9 +302,22 @@ impl Model {
         let candidates: &[u64] = if now0 == now1 { &[now0] } else { &[now0, now1] };
         for &now in candidates {
             let mut trial = self.clone();
+            trial.now_hint = trial.now_hint.max(now1).max(now0);
             match trial.step_at(call, res, obs, now, now0, now1) {
                 Ok(()) => {
                     *self = trial;
+                    // an explicit timestamp carried by a failed call must not leak into the clock
+                    if let Res::Err(_) = res {
+                        let ts = match call {
+                            Call::Insert { ts, .. } | Call::Delete { ts, .. } | Call::Cas { ts, .. } | Call::Incr { ts, .. } | Call::JsonPatch { ts, .. } => *ts,
+                            _ => None,
+                        };
+                        if let Some(f) = ts {
+                            if f != u64::MAX && f > self.now_hint.max(self.max_accepted).saturating_add(1_000_000) && self.rejected_future.len() < 32 {
+                                self.rejected_future.push(f);
+                            }
+                        }
+                    }
                     return Ok(());
                 }
                 Err(f) => last = Some(f),
@@ -325,6 +348,16 @@ impl Model {
                 );
             }
         }
+        let ceiling = self.now_hint.max(self.max_accepted).saturating_add(1_000_000);
+        if let Some(f) = self.rejected_future.iter().find(|f| ts >= **f && **f > ceiling) {
+            return fail(
+                "rejected-timestamp-absorbed",
+                format!(
+                    "{}: automatic timestamp {ts} is not below {f}, an explicit timestamp that was only ever carried by a call that failed (wall clock {}, newest accepted timestamp {})",
+                    call.brief(), self.now_hint, self.max_accepted
+                ),
+            );
+        }
         if let Some(floor) = self.floor.get(key) {
             if ts <= *floor && *floor != u64::MAX {
                 return fail(
@@ -339,6 +372,9 @@ impl Model {
     fn note_ts(&mut self, key: &[u8], ts: u64) {
         let e = self.floor.entry(key.to_vec()).or_insert(0);
         *e = (*e).max(ts);
+        if ts != u64::MAX {
+            self.max_accepted = self.max_accepted.max(ts);
+        }
     }
 
     fn obs_matches(&self, call: &Call, key: &[u8], obs: Option<&Obs>) -> Result<(), Fail> {
@@ -836,6 +872,7 @@ impl Model {
         }
         // the version clock restarts from what recovery saw
         self.floor = self.map.iter().map(|(k, g)| (k.clone(), g.ts)).collect();
+        self.rejected_future.clear();
         Ok(())
     }
 }
